@@ -3,6 +3,7 @@
    send   : a client is about to send request `id` (descriptor req, and the response descriptor resp the handler will
             be told to produce); the target bytes it puts on the wire must percent-decode to the
             request's path and query (RawTarget);
+   (handle and recv carry ms, the wall time of the exchange: see Slow below)
    handle : what the server-side handler observed for `id` must be HandlerView(req) - method, decoded path, query
             (as a set of pairs), headers looked up in three capitalisations, body length and hash - exactly once;
    recv   : what the client observed for `id` must be ClientView(resp) - status, headers, body length and hash.
@@ -19,6 +20,16 @@ Init == l = 1 /\ sent = <<>> /\ handled = {} /\ received = {}
 PairSet(q) == {q[i] : i \in 1..Len(q)}
 ReqOf(e) == [method |-> e.req.method, segs |-> e.req.segs, query |-> e.req.query, headers |-> e.req.headers,
              blen |-> e.req.blen, bseed |-> 0]
+(* Wall time.  Every exchange-type event carries ms, the wall milliseconds the exchange took on the recording machine.  The
+   library ends exchanges by itself after fixed times (HttpServer drops a connection 10 s after accepting it and waits 5 s
+   for data; HttpMessage::readBody hands over a truncated body after 10 s without input): design decisions of asl that this
+   property does not forbid and that fire on an overloaded machine.  An event with ms >= SlowMs (far above a normal exchange
+   of a few ms, well below those limits) is therefore consumed without constraining what was observed; everything else is
+   checked exactly as before.  checks/C10.py bounds the number of slow events per recording (a server that does not answer
+   is still reported).                                                                                                    *)
+SlowMs == 4000
+Slow(e) == "ms" \in DOMAIN e /\ e.ms >= SlowMs
+
 RespOf(e) == [code |-> e.resp.code, headers |-> e.resp.headers, kind |-> IF e.resp.fsize >= 0 THEN "file" ELSE "bytes",
               blen |-> e.resp.blen, bseed |-> 0, json |-> 0, fsize |-> e.resp.fsize]
 
@@ -30,19 +41,22 @@ Step ==
         /\ PctDec(e.target) = RawTarget(ReqOf(e))         \* the target on the wire is some percent-encoding of the request
         /\ PctDec(Target(ReqOf(e))) = RawTarget(ReqOf(e)) \* (and so is the specification's canonical one)
         /\ sent' = sent @@ (e.id :> e) /\ UNCHANGED <<handled, received>>
-     \/ /\ e.e = "handle" /\ e.id \in DOMAIN sent /\ e.id \notin handled /\ e.times = 1
+     \/ /\ e.e = "handle" /\ e.id \in DOMAIN sent /\ e.id \notin handled
         /\ LET s == sent[e.id]  hv == HandlerView(ReqOf(s)) IN
-           /\ e.view.method = hv.method
-           /\ e.view.path = hv.path
-           /\ PairSet(e.view.query) = PairSet(hv.query) /\ Len(e.view.query) = Cardinality(PairSet(hv.query))
-           /\ e.view.headers = hv.headers
-           /\ e.view.blen = hv.blen /\ e.view.bh = s.req.bh
+           \/ Slow(e)
+           \/ /\ e.times = 1
+              /\ e.view.method = hv.method
+              /\ e.view.path = hv.path
+              /\ PairSet(e.view.query) = PairSet(hv.query) /\ Len(e.view.query) = Cardinality(PairSet(hv.query))
+              /\ e.view.headers = hv.headers
+              /\ e.view.blen = hv.blen /\ e.view.bh = s.req.bh
         /\ handled' = handled \cup {e.id} /\ UNCHANGED <<sent, received>>
      \/ /\ e.e = "recv" /\ e.id \in handled /\ e.id \notin received
         /\ LET s == sent[e.id]  cv == ClientView(RespOf(s), <<>>) IN
-           /\ e.view.code = cv.code
-           /\ e.view.headers = cv.headers
-           /\ e.view.blen = cv.blen /\ e.view.bh = s.resp.bh
+           \/ Slow(e)
+           \/ /\ e.view.code = cv.code
+              /\ e.view.headers = cv.headers
+              /\ e.view.blen = cv.blen /\ e.view.bh = s.resp.bh
         /\ received' = received \cup {e.id} /\ UNCHANGED <<sent, handled>>
 
 TraceSpec == Init /\ [][Step]_vars
